@@ -3,7 +3,7 @@
    Only statements; proofs are `exact <lemma>` into Proofs/AtomicFacts.v. *)
 From Coq Require Import String List ZArith QArith Bool.
 From BB Require Import Base.Names Base.Num Base.PyList Model.Types Model.Blueprint Model.Forge Model.Element
-  Model.PyVal Model.Sequence Model.Output Model.Tools Model.Descr Model.Interp Proofs.AtomicFacts.
+  Model.PyVal Model.Sequence Model.Output Model.Tools Model.Descr Model.Interp Proofs.AtomicFacts Proofs.PartialFacts.
 Import ListNotations.
 
 (* the two definitions the statement uses, pinned here so that they cannot be weakened out of sight *)
@@ -43,7 +43,26 @@ Theorem Atomic_handle_edit_frame : forall q pos f q' o,
      alookup Z.eqb pos (sdata q') = Some (EElem (fst (f e))) /\ o = snd (f e)).
 Proof. exact handle_edit_frame. Qed.
 
+(* What a half-failed replaceeverywhere edit leaves behind (the case excluded above): exactly the edits of the matching
+   segments in front of the one that was refused - the refused segment itself and everything after it are untouched.
+   l is the list of matching segment names in blueprint order (replace_list). *)
+Theorem Atomic_everywhere_arg_prefix : forall l b a v b' e,
+  change_arg_loop b l a v = (b', Some e) ->
+  exists l1 x l2, l = l1 ++ x :: l2 /\
+    change_arg_loop b l1 a v = (b', None) /\
+    snd (change_arg_one b' x a v) = Some e /\ fst (fst (change_arg_one b' x a v)) = b'.
+Proof. exact everywhere_arg_prefix. Qed.
+
+Theorem Atomic_everywhere_dur_prefix : forall l b d b' e,
+  change_dur_loop b l d = (b', Some e) ->
+  exists l1 x l2, l = l1 ++ x :: l2 /\
+    change_dur_loop b l1 d = (b', None) /\
+    change_dur_one b' x d = (b', Some e).
+Proof. exact everywhere_dur_prefix. Qed.
+
 Print Assumptions Atomic_single_edit_is.
 Print Assumptions Atomic_same_objects_is.
 Print Assumptions Atomic_rejected_call_changes_nothing.
 Print Assumptions Atomic_handle_edit_frame.
+Print Assumptions Atomic_everywhere_arg_prefix.
+Print Assumptions Atomic_everywhere_dur_prefix.
